@@ -198,7 +198,8 @@ def run_case(case):
                           for d in present_internal}
             with under_test("harvest reported cases"):
                 r = x.Runner(fn, tuple(n for n, _ in spec["vars"]),
-                             fn_args=tuple(fn_args), var_dims=var_dims,
+                             fn_args=tuple(reversed(fn_args)),
+                             var_dims=var_dims,
                              var_coords=var_coords)
                 h = x.Harvester(r, full_ds=ds.copy(deep=True))
                 # inf entries count as missing under 'isfinite' but are data
